@@ -534,7 +534,7 @@ pub fn run(args: &Args) -> ! {
 
     // 1. what does the checker really do? (decides the alphabet's self-dependency switch)
     let conf = conformance(quick);
-    if conf.traces < 100 {
+    if conf.failures.total() == 0 && conf.traces < 100 {
         machinery_failure(&format!("only {} scheduling traces were recorded", conf.traces));
     }
     let self_deps = conf.self_deps_seen > 0;
